@@ -517,9 +517,14 @@ def _mk_gridded(nprng, rng, n_lines, n_pos, centre, spread_deg, t0, span_s, nan_
             if rng.random() < nan_share:
                 lat[k, q] = _np.nan
     t = t0 + (nprng.uniform(0, span_s, size=n_lines) * 1e9).astype("int64").astype("timedelta64[ns]")
-    return xr.Dataset({"lat": (("scnline", "scnpos"), lat), "lon": (("scnline", "scnpos"), lon), "time": ("scnline", t.astype("datetime64[ns]")),
-                       "id": (("scnline", "scnpos"), _np.arange(n_lines * n_pos).reshape(n_lines, n_pos))},
-                      coords={"scnline": nprng.permutation(n_lines) * 2 + 11, "scnpos": _np.arange(n_pos) + 1})
+    # (the names of the two dimensions are the user's: typhon's own, and pairs that sort the other way round)
+    dl, dp = rng.choice(GRID_DIMS)
+    return xr.Dataset({"lat": ((dl, dp), lat), "lon": ((dl, dp), lon), "time": (dl, t.astype("datetime64[ns]")),
+                       "id": ((dl, dp), _np.arange(n_lines * n_pos).reshape(n_lines, n_pos))},
+                      coords={dl: nprng.permutation(n_lines) * 2 + 11, dp: _np.arange(n_pos) + 1})
+
+
+GRID_DIMS = [("scnline", "scnpos"), ("scanline", "pixel"), ("along_track", "across_track"), ("y", "x")]
 
 
 def _flat(ds):
@@ -637,7 +642,7 @@ def bounded_collocate(rng, tier):
 
 
 @bounded(P, "prebinned-path-vs-brute-force", "the temporally pre-binned path of collocate() (more than 10^6 candidate pairs: 1100 x 1000 and "
-         "1000 x 1100 points) with time stamps on a whole-minute raster (many points exactly on bin edges and exactly max_interval before "
+         "1000 x 1100 points; every third pair has a gridded primary -- 110 or 100 scan lines x 10 positions -- with user-named dimensions) with time stamps on a whole-minute raster (many points exactly on bin edges and exactly max_interval before "
          "them), bin_factor in {0.5, 1, 2}, both size orderings; oracle: vectorised O(n*m) search; 3 (quick) / 12 (thorough) dataset pairs")
 def bounded_prebinned(rng, tier):
     import warnings
@@ -648,34 +653,47 @@ def bounded_prebinned(rng, tier):
     R = earth_radius / 1000.0
     t0 = _np.datetime64("2020-03-01T00:00:00", "ns")
 
-    def mk(nprng, n, raster_s):
+    def mk(nprng, n, raster_s, grid=None):
         lat = 50 + nprng.normal(size=n) * 0.6
         lon = 10 + nprng.normal(size=n) * 0.9
+        if grid is not None:
+            # a swath of n / 10 scan lines x 10 positions (time per scan line), dimensions named by the user
+            dl, dp = grid
+            nl = n // 10
+            t = t0 + (nprng.randint(0, 3 * 3600 // raster_s, size=nl) * raster_s).astype("timedelta64[s]")
+            return xr.Dataset({"lat": ((dl, dp), lat.reshape(nl, 10)), "lon": ((dl, dp), lon.reshape(nl, 10)), "time": (dl, t.astype("datetime64[ns]")),
+                               "id": ((dl, dp), _np.arange(n).reshape(nl, 10))}, coords={dl: _np.arange(nl), dp: _np.arange(10)})
         t = t0 + (nprng.randint(0, 3 * 3600 // raster_s, size=n) * raster_s).astype("timedelta64[s]")
         return xr.Dataset({"lat": ("collocation", lat), "lon": ("collocation", lon), "time": ("collocation", t.astype("datetime64[ns]")),
                            "id": ("collocation", _np.arange(n))}, coords={"collocation": _np.arange(n)})
 
     def unit(ds):
-        la, lo = _np.radians(ds.lat.values), _np.radians(ds.lon.values)
+        la, lo = _np.radians(ds.lat.values.ravel()), _np.radians(ds.lon.values.ravel())
         return _np.stack([_np.cos(la) * _np.cos(lo), _np.cos(la) * _np.sin(lo), _np.sin(la)], axis=1)
+
+    def times(ds):
+        tt = ds.time.values.astype("int64")
+        return tt if ds.lat.ndim == 1 else _np.repeat(tt, ds.lat.shape[1])
     for r in range(rounds):
         nprng = _np.random.RandomState(rng.randint(0, 2**31 - 1))
         n1, n2 = (1100, 1000) if r % 2 == 0 else (1000, 1100)
         raster = rng.choice([60, 300])
-        a, b = mk(nprng, n1, raster), mk(nprng, n2, raster)
+        grid = GRID_DIMS[1 + (r // 3) % (len(GRID_DIMS) - 1)] if r % 3 == 1 else None     # every third pair: a gridded primary
+        a, b = mk(nprng, n1, raster, grid), mk(nprng, n2, raster)
         minutes = rng.choice([5, 10])
         km = 3.0
         bf = rng.choice([0.5, 1, 2])
         ua, ub = unit(a), unit(b)
         d = R * _np.sqrt(((ua[:, None, :] - ub[None, :, :]) ** 2).sum(axis=2))
-        dt = _np.abs(a.time.values.astype("int64")[:, None] - b.time.values.astype("int64")[None, :])
+        dt = _np.abs(times(a)[:, None] - times(b)[None, :])
         ok = (d <= km) & (dt < minutes * 60 * 10**9)
         edge = (_np.abs(d - km) <= 1e-6 * km)
         want = {(int(i), int(j)) for i, j in zip(*_np.nonzero(ok & ~edge))}
         skip = {(int(i), int(j)) for i, j in zip(*_np.nonzero(edge))}
         evals += 1
         distinct.add((r, n1, n2, raster, minutes, bf))
-        case = {"round": r, "n1": n1, "n2": n2, "raster_s": raster, "max_interval": "%d min" % minutes, "bin_factor": bf, "true_pairs": len(want)}
+        case = {"round": r, "n1": n1, "n2": n2, "raster_s": raster, "max_interval": "%d min" % minutes, "bin_factor": bf, "true_pairs": len(want),
+                "primary_dims": list(grid) if grid else ["collocation"]}
         try:
             with warnings.catch_warnings():
                 warnings.simplefilter("ignore")
